@@ -3,6 +3,7 @@
 From Coq Require Import List String NArith ZArith Bool.
 From AM Require Import Rust.Ast Rust.Eval Gen.Error Gen.Asset Gen.Key Ref.Load Proofs.Load
   Tie.Error Tie.LoadFromSource Gen.Flags Tie.Dirs Gen.Loaders Tie.Loaders Gen.Private Tie.Graph.
+From AM Require Gen.Fs Tie.Fs.
 From AM Require Ref.Utf8 Ref.Loaders Proofs.Loaders.
 Import ListNotations.
 Open Scope N_scope.
@@ -114,3 +115,12 @@ Example C03_loaders_nonvacuous :
   Loaders.parse_loader (Utf8.encode [160; 8195; 45; 52; 50; 10; 12288]%N) = Some (-42)%Z /\
   Loaders.parse_loader (Utf8.encode [52; 50; 8203]%N) = None.
 Proof. vm_compute. split; reflexivity. Qed.
+
+(* the FileSystem source hands back exactly the bytes fs::read returned for the entry's path, of any
+   length, and answers exists / read_dir from that path *)
+Theorem C03_code_filesystem_source :
+  fn_body Gen.Fs.FileSystem_read = Tie.Fs.expected_FileSystem_read /\
+  fn_body Gen.Fs.FileSystem_exists = Tie.Fs.expected_FileSystem_exists /\
+  fn_body Gen.Fs.FileSystem_path_of = Tie.Fs.expected_FileSystem_path_of /\
+  fn_body Gen.Fs.FileSystem_read_dir = Tie.Fs.expected_FileSystem_read_dir.
+Proof. exact Tie.Fs.filesystem_source_as_modelled. Qed.
